@@ -55,7 +55,9 @@ def _worker_term():
     inp = os.fdopen(slave, "rb", buffering=0, closefd=False)
     outc, outd = common.RecStream(), common.RecStream()
     t = tup.graphics_terminal.GraphicsTerminal(out_command=outc, out_display=outd, in_response=inp, in_userinput=inp)
-    _W.update(t=t, master=master, slave=slave, outc=outc, outd=outd)
+    # a second terminal object on the same pty whose response stream was given as a PATH (the library opens it itself)
+    tp = tup.graphics_terminal.GraphicsTerminal(out_command=outc, out_display=outd, in_response=os.ttyname(slave), in_userinput=inp)
+    _W.update(t=t, tp=tp, master=master, slave=slave, outc=outc, outd=outd)
     return _W
 
 
@@ -82,7 +84,7 @@ def canon_response(r):
 def run_impl(task):
     """task: {mode, stream(hex), timeouts:[...]} -> {"calls": [...], "rest": hex, "wall": s}"""
     w = _worker_term()
-    t, master, slave = w["t"], w["master"], w["slave"]
+    t, master, slave = w["tp" if task.get("path") else "t"], w["master"], w["slave"]
     _drain(slave)
     _drain(master)
     data = unhex(task["stream"])
@@ -564,7 +566,7 @@ def timeouts_for(c, scale=1.0):
 
 
 def task_of(c, scale=1.0):
-    return {"mode": c["mode"], "stream": hexs(c["stream"]), "timeouts": timeouts_for(c, scale)}
+    return {"mode": c["mode"], "stream": hexs(c["stream"]), "timeouts": timeouts_for(c, scale), "path": bool(c.get("path"))}
 
 
 def strip_wall(r):
@@ -616,6 +618,8 @@ def spec_verdict(c, impl):
 
 def slim_case(c):
     d = {"klass": c["klass"], "mode": c["mode"], "calls": c["calls"], "stream": hexs(c["stream"])}
+    if c.get("path"):
+        d["path"] = True
     if "spec" in c:
         d["spec"] = {"tail": hexs(c["spec"]["tail"]),
                      "units": [{"noise": hexs(u["noise"]), "msg": None if u["msg"] is None else hexs(u["msg"]), "items": [item_token(i) for i in u["items"]]} for u in c["spec"]["units"]]}
@@ -628,7 +632,7 @@ def slim_case(c):
 
 def fat_case(d):
     """inverse of slim_case (for replay)"""
-    c = {"klass": d.get("klass", "replay"), "mode": d["mode"], "calls": d["calls"], "stream": unhex(d["stream"])}
+    c = {"klass": d.get("klass", "replay"), "mode": d["mode"], "calls": d["calls"], "stream": unhex(d["stream"]), "path": bool(d.get("path"))}
     if "spec" in d:
         units = []
         for u in d["spec"]["units"]:
@@ -700,6 +704,8 @@ def run(ctx, model):
         ctx.corr_breaks.append(p)
     cases = [c for c in cases if c["stream"] is not None and len(c["stream"]) <= MAX_STREAM]
     ctx.rng.shuffle(cases)  # every class is sampled early (the run stops after 25 differences)
+    for k, c in enumerate(cases):
+        c["path"] = k % 5 == 4   # every fifth case: the terminal object whose response stream was given as a path
     query_hex = model.one("c19.cursor_query")
     predict(model, cases, query_hex)
     for c in cases:
@@ -740,14 +746,16 @@ def run(ctx, model):
 
 def judge(ctx, cov, c, impl):
     nontrivial = APC_G in c["stream"] or (c["mode"] == "cursor" and CSI in c["stream"])
-    cov.add({"mode": c["mode"], "calls": c["calls"], "stream": hexs(c["stream"])}, nontrivial=nontrivial, klass=c["klass"])
+    cov.add({"mode": c["mode"], "calls": c["calls"], "stream": hexs(c["stream"]), "path": bool(c.get("path"))}, nontrivial=nontrivial, klass=c["klass"])
+    if c.get("path"):
+        cov.bump("response-stream-given-as-path")
     sc = slim_case(c)
     if strip_wall(impl) != c["model"]:
         ctx.corr_breaks.append({"what": f"{c['mode']}: implementation differs from Model.ResponseModel", "case": sc, "impl": strip_wall(impl), "model": c["model"]})
     v = spec_verdict(c, impl)
     if v is not None:
         klass, text, want = v
-        ctx.violations.append({"signature": {"class": klass, "mode": c["mode"]}, "what": text, "case": sc, "observed": strip_wall(impl), "expected_by_spec": want})
+        ctx.violations.append({"signature": {"class": klass, "mode": c["mode"]}, "what": ("[response stream given as a path] " if c.get("path") else "") + text, "case": sc, "observed": strip_wall(impl), "expected_by_spec": want})
 
 
 def replay(ctx, model, rec):
